@@ -56,9 +56,15 @@ def gen_case(rng, max_n=40):
         F = [[float(i)] + [float(N - i)] * (M - 1) for i in range(N)]
     metric = rng.choice(["cityblock", "cityblock", "cityblock", "euclidean", "euclidean", "sqeuclidean", "chebyshev", "chebyshev"] + OTHER)
     norm = rng.choice(["none", "none", "ideal-nadir", "pf", "pf+ideal", "pf+nadir"])
+    xdtype = None
+    if style in ("grid", "dups", "equispaced") and rng.random() < 0.3:
+        # count-valued objectives handed over as an integer array (no normalisation: pymoo's own rescaling is not defined for integer arrays)
+        F = [[float(int(4 * x)) for x in r] for r in F]; xdtype = "int64"; norm = "none"
     if metric == "mahalanobis" and not (norm == "none" and style == "cont" and N >= M + 3):
         metric = "seuclidean"          # a covariance matrix needs enough points in general position
     case = {"F": F, "metric": metric, "norm": norm, "style": style, "seed": rng.randrange(2 ** 31)}
+    if xdtype:
+        case["xdtype"] = xdtype
     if rng.random() < 0.4:
         case["prime"] = True
     A = np.array(F, dtype=float)
@@ -114,7 +120,7 @@ def prime(case, F):
 
 def run_case(case):
     import pymoode.performance._spacing as sp
-    F = np.array(case["F"], dtype=float); F0 = F.copy()
+    F = np.array(case["F"], dtype=float).astype(case.get("xdtype", "float64")); F0 = F.copy()
     try:
         with np.errstate(all="ignore"):
             prime(case, F)
@@ -149,16 +155,19 @@ def run_first(case):
     implementation's own call of scipy's pdist (or cdist) when it makes one; otherwise they are recomputed from the normalisation object"""
     import pymoode.performance._spacing as sp
     from scipy.spatial.distance import squareform, pdist as sp_pdist
-    F = np.array(case["F"], dtype=float)
+    F = np.array(case["F"], dtype=float).astype(case.get("xdtype", "float64"))
     seen = {}
     origs = {nm: getattr(sp, nm) for nm in ("pdist", "cdist") if hasattr(sp, nm)}
 
     def wrap(nm):
         def f(Xin, *a, **k):
             out = origs[nm](Xin, *a, **k)
-            seen.setdefault("X", np.array(Xin, dtype=float).copy())
-            o = np.array(out, dtype=float)
-            seen.setdefault("D", squareform(o) if o.ndim == 1 else o.copy())
+            Xa = np.array(Xin, dtype=float); o = np.array(out, dtype=float); n = len(F)
+            # only a call on the whole point set that yields the whole distance matrix is taken over; anything else (blocks, single rows)
+            # is ignored and the matrix is recomputed below from the normalised points
+            if Xa.shape == F.shape and (o.shape == (n, n) or o.shape == (n * (n - 1) // 2,)):
+                seen.setdefault("X", Xa.copy())
+                seen.setdefault("D", squareform(o) if o.ndim == 1 else o.copy())
             return out
         return f
     for nm in origs:
@@ -313,7 +322,7 @@ class C20(Check):
         return len(case["F"]) >= 3
 
     def classes(self, case, obs):
-        return [case["metric"], case["norm"], case["style"], "n>=8" if len(case["F"]) >= 8 else "n<8"] + (["n>128"] if len(case["F"]) > 128 else []) + (["n>512-reference-only"] if case.get("large") else [])
+        return [case["metric"], case["norm"], case["style"], "n>=8" if len(case["F"]) >= 8 else "n<8"] + (["n>128"] if len(case["F"]) > 128 else []) + (["n>512-reference-only"] if case.get("large") else []) + (["integer-array"] if case.get("xdtype") else [])
 
 
 if __name__ == "__main__":
